@@ -56,7 +56,7 @@ package db
 // sync: decoding the file with the in-memory DEK yields exactly the in-memory view.
 //@ pred sync(kv *kv) { syncHdr(kv) && (forall n string, v api.SecretVersion :: syncAt(kv, n, v)) }
 // keys: the stored DEK unwraps under the KEK to the DEK in use, and the cipher in use is built from it.
-//@ pred keys(kv *kv) { kv.dekCipher != nil && kv.dekCipher == aeadOf(ref(kv.dek)) && unwrapDEK(bytes(kv.dekRaw), kv.kekCipher, ctxDEK(1)) == ref(kv.dek) }
+//@ pred keys(kv *kv) { kv.dekCipher != nil && !isKEK(kv.dekCipher) && kv.dekCipher == aeadOf(ref(kv.dek)) && unwrapDEK(bytes(kv.dekRaw), kv.kekCipher, ctxDEK(1)) == ref(kv.dek) }
 //@ pred inv(kv *kv) { wf(kv) && sync(kv) && keys(kv) }
 // what a file must decode to for the result of opening it to be well formed (holds for every file written by save from a wf state: lemma save-wfFile)
 //@ fn clearOfFile(file string, kek tink.AEAD) string {
@@ -78,7 +78,7 @@ package db
 //@   ensures [C03,C18 text.inverse] err == nil ==> str(*b) == b64dec(bytes(text))
 
 //@ func (*kv).save(kv) (err)
-//@   requires kv != nil && allocated(kv) && kv.dekCipher != nil && kv.secrets != nil && (forall n string :: has(kv.secrets, n) ==> kv.secrets[n] != nil)
+//@   requires kv != nil && allocated(kv) && kv.dekCipher != nil && !isKEK(kv.dekCipher) && kv.secrets != nil && (forall n string :: has(kv.secrets, n) ==> kv.secrets[n] != nil)
 //@   ensures [C04 save.gen] kv.gen == old(kv.gen) + ite(err == nil, 1, 0)
 //@   ensures [C03,C05 save.sync] err == nil ==> sync(kv)
 //@   ensures [C05 save.perm0600] err == nil ==> diskPerm(disk, kv.path) == 384
@@ -142,7 +142,7 @@ package db
 //@     invariant [fields] info.Name == name && info.ActiveVersion == kv.secrets[name].ActiveVersion
 
 //@ func (*kv).put(kv, name, value) (ver, err)
-//@   requires wf(kv) && sync(kv) && kv.dekCipher != nil
+//@   requires wf(kv) && sync(kv) && kv.dekCipher != nil && !isKEK(kv.dekCipher)
 //@   requires has(kv.secrets, name) ==> kv.secrets[name].LatestVersion < 4294967295
 //@   ensures [C02,C04 put.wf] wf(kv)
 //@   ensures [C03,C04 put.sync] sync(kv)
@@ -164,7 +164,7 @@ package db
 //@   ensures [C02,C18 put.readback] err == nil ==> (hasVersion(kv, name, ver) && valueOf(kv, name, ver) == bytes(value) && ver != 0)
 
 //@ func (*kv).setActive(kv, name, version) (err)
-//@   requires wf(kv) && sync(kv) && kv.dekCipher != nil
+//@   requires wf(kv) && sync(kv) && kv.dekCipher != nil && !isKEK(kv.dekCipher)
 //@   ensures [C02,C04 setActive.wf] wf(kv)
 //@   ensures [C03,C04 setActive.sync] sync(kv)
 //@   ensures [C02,C04 setActive.fail-nochange] err != nil ==> (viewUnchanged(kv) && disk == old(disk) && kv.gen == old(kv.gen))
@@ -177,7 +177,7 @@ package db
 //@   ensures [C05 setActive.kek-unused] kekUses == old(kekUses)
 
 //@ func (*kv).deleteVersion(kv, name, version) (err)
-//@   requires wf(kv) && sync(kv) && kv.dekCipher != nil
+//@   requires wf(kv) && sync(kv) && kv.dekCipher != nil && !isKEK(kv.dekCipher)
 //@   ensures [C02,C04 deleteVersion.wf] wf(kv)
 //@   ensures [C03,C04 deleteVersion.sync] sync(kv)
 //@   ensures [C02,C04 deleteVersion.fail-nochange] err != nil ==> (viewUnchanged(kv) && disk == old(disk) && kv.gen == old(kv.gen))
@@ -191,7 +191,7 @@ package db
 //@   ensures [C05 deleteVersion.kek-unused] kekUses == old(kekUses)
 
 //@ func (*kv).deleteSecret(kv, name) (err)
-//@   requires wf(kv) && sync(kv) && kv.dekCipher != nil
+//@   requires wf(kv) && sync(kv) && kv.dekCipher != nil && !isKEK(kv.dekCipher)
 //@   ensures [C02,C04 deleteSecret.wf] wf(kv)
 //@   ensures [C03,C04 deleteSecret.sync] sync(kv)
 //@   ensures [C02,C04 deleteSecret.fail-nochange] err != nil ==> (viewUnchanged(kv) && disk == old(disk) && kv.gen == old(kv.gen))
@@ -381,3 +381,16 @@ package db
 //@     invariant [names] (forall k int :: (0 <= k && k < len(call_list)) ==> has(db.kv.secrets, call_list[k])) &&
 //@        (forall n string :: has(db.kv.secrets, n) ==> (exists k int :: 0 <= k && k < len(call_list) && call_list[k] == n))
 //@     invariant [state] db.mu && db != nil && db.kv != nil && wf(db.kv) && noEffect(db) && auditLog == snoc(old(auditLog), evC(caller, "info", "", 0, true))
+
+// ---- structural contracts (decided over go/types and the static call graph) ---------------
+// Documented schema-version-1 layout (kv.go): renaming a field or adding a plaintext index fails here.
+//@ layout [C03,C05 wrapped] wrapped { Version uint32; DEK []byte; DB []byte }
+//@ layout [C03 persist] persist { Secrets map[string]*secret }
+//@ layout [C03 secret] secret { Versions map[api.SecretVersion]byteString; ActiveVersion api.SecretVersion; LatestVersion api.SecretVersion }
+//@ pin [C03 schema-version] const databaseSchemaVersion == 1
+//@ pin [C03,C18 byteString-marshal] method byteString.MarshalText exists
+//@ pin [C03,C18 byteString-unmarshal] method byteString.UnmarshalText exists
+// The live file is never written in place: package db reaches the file system for writing only through atomicfile.WriteFile, only in save.
+//@ nocall [C04,C05 no-inplace-write] in db: os.WriteFile, os.Create, os.OpenFile, os.Rename, os.Truncate, os.Remove, (*os.File).Write, (*os.File).WriteString
+//@ callers [C04,C05 atomic-writer] tailscale.com/atomicfile.WriteFile only-from (*db.kv).save, (client/setec.FileCache).Write
+//@ callers [C03,C04 save-callers] (*db.kv).save only-from db.newKV, (*db.kv).put, (*db.kv).setActive, (*db.kv).deleteVersion, (*db.kv).deleteSecret
